@@ -2,6 +2,8 @@ import XrsVerif.Proofs.AStarEuclid
 import XrsVerif.Proofs.AStarCoord
 import XrsVerif.Proofs.AStarQ2
 import XrsVerif.Proofs.AStarGen
+import XrsVerif.Proofs.ILAStarMain
+import XrsVerif.Proofs.ILAStarER
 import Mathlib.Analysis.Real.Sqrt
 /-
   C14 -- A* returns a valid, shortest path between the cells the caller named.
@@ -453,6 +455,181 @@ theorem snap_rule_generated (hs : SqrtOk K) (dataV : Cell → NV K) (bars : List
   ⟨snapKeep_generated dataV bars p, snapStep_generated hs dataV bars p c acc md hacc⟩
 
 end generated
+
+/-! ### the programs generated statement by statement from pathfinding.py (layer T3, `Gen/IL.lean`)
+
+  `harness/facts_il.py` translates the numba functions `_is_not_crossable`, `_is_inside`, `_min_cost_pixel_id`,
+  `_find_nearest_pixel`, `_reconstruct_path` and `_a_star_search` (helpers inlined) into programs of the imperative
+  language `Core/ILang.lean` on every run; `Proofs/ILAStar*.lean` prove that each program computes the hand model
+  (`refinement`), for every number type `F` (`[Fl F]`: only `+`, `<`, `==`, `isnan`, `sqrt` of the type are used, no
+  laws) -- so in particular for IEEE doubles.  The theorems below restate the clauses of the property for the
+  *generated* programs.  States: `s.ienv / s.fenv / s.benv` scalar variables, `s.ia / s.fa` flat arrays with shapes
+  `s.shp`; `cidx w c` is the row-major offset of cell `c`; an out-of-range access would end in `Ctl.err`, so
+  `ctl = ret` also says that every access was in range. -/
+
+section il
+open XrsVerif.IL
+variable {F : Type} [Fl F]
+
+/-- **generated `_is_not_crossable`**: returns `True` exactly for NaN and for values `==` to a listed barrier value;
+    no array is written -/
+theorem il_crossable (s : State F) (fuel : Nat) (hs : s.ctl = .run) (hb : (s.shp "barriers").length = 1) :
+    let r := Gen.IL.isNotCrossable.run s fuel
+    r.ctl = .ret ∧
+      (r.benv "ret0" = true ↔
+        Fl.isnan (s.fenv "cell_value") = true ∨ ∃ b ∈ s.fa "barriers", Fl.eq (s.fenv "cell_value") b = true) ∧
+      r.fa = s.fa ∧ r.ia = s.ia := by
+  have h := isNotCrossable_refines s fuel hs hb
+  refine ⟨h.1, ?_, h.2.2⟩
+  rw [h.2.1]
+  simp [notCross, List.any_eq_true]
+
+/-- **generated `_is_inside`** is the model's `inside` -/
+theorem il_inside (s : State F) (fuel : Nat) (hs : s.ctl = .run) (h w : Nat)
+    (hh : s.ienv "h" = (h : Int)) (hw : s.ienv "w" = (w : Int)) :
+    let r := Gen.IL.isInside.run s fuel
+    r.ctl = .ret ∧ r.benv "ret0" = inside h w (s.ienv "py", s.ienv "px") :=
+  isInside_refines s fuel hs h w hh hw
+
+/-- **the selection of the generated `_min_cost_pixel_id` is the model's `minCostOpen`**: for every model state
+    whose `isOpen` / `f` are the arrays `is_open` / `cost`, the program returns `minCostOpen` (`(-1, -1)` for
+    `none`): the first cell in row-major order that is open and strictly cheaper than every earlier candidate and
+    than the initial bound `(h + w)^2`; a returned cell is open and lies in the raster -/
+theorem il_selection (e : Env F) (mst : AStar.St F) (s : State F) (fuel : Nat) (hs : s.ctl = .run)
+    (habs : McAbs e mst s) :
+    let r := Gen.IL.minCostPixelId.run s fuel
+    r.ctl = .ret ∧ (r.ienv "ret0", r.ienv "ret1") = enc (minCostOpen e mst) ∧ r.ia = s.ia ∧ r.fa = s.fa ∧
+      ∀ u, minCostOpen e mst = some u → mst.isOpen u = true ∧ inside e.h e.w u = true := by
+  have h := minCostPixelId_refines e mst s fuel hs habs
+  exact ⟨h.1, h.2.1, h.2.2.1, h.2.2.2, fun u hu => ⟨minCostOpen_open hu, minCostOpen_inside hu⟩⟩
+
+/-- **the generated `_find_nearest_pixel` snaps to the nearest crossable cell with the model's tie-breaking**
+    (number types in which `sqrt` is strictly monotone on the integers and `< 1/0`, `SqrtLt F`): the result is the
+    model's `findNearest` -- the queried cell if it is crossable, otherwise the first crossable cell in row-major order
+    at minimum distance, `(-1, -1)` if no cell is crossable -- hence (`snap_argmin`) a crossable cell of the raster at
+    minimum distance.  Without `SqrtLt` (any `F`): `findNearestPixel_refines` (the scan with float comparisons). -/
+theorem il_snap (hF : SqrtLt F) (h w : Nat) (cross : Cell → Bool) (s : State F) (fuel : Nat) (hs : s.ctl = .run)
+    (habs : FnAbs h w cross s) (hp : inside h w (s.ienv "py", s.ienv "px") = true) :
+    let r := Gen.IL.findNearestPixel.run s fuel
+    r.ctl = .ret ∧ (r.ienv "ret0", r.ienv "ret1") = enc (findNearest h w cross (s.ienv "py", s.ienv "px")) ∧
+      r.fa = s.fa ∧ r.ia = s.ia ∧
+      (cross (s.ienv "py", s.ienv "px") = true → (r.ienv "ret0", r.ienv "ret1") = (s.ienv "py", s.ienv "px")) ∧
+      (∀ c, findNearest h w cross (s.ienv "py", s.ienv "px") = some c →
+        (r.ienv "ret0", r.ienv "ret1") = c ∧ cross c = true ∧ inside h w c = true ∧
+        ∀ c', inside h w c' = true → cross c' = true →
+          sqDist c (s.ienv "py", s.ienv "px") ≤ sqDist c' (s.ienv "py", s.ienv "px")) ∧
+      (findNearest h w cross (s.ienv "py", s.ienv "px") = none →
+        (r.ienv "ret0", r.ienv "ret1") = (-1, -1) ∧ ∀ c', inside h w c' = true → cross c' = false) := by
+  have hr := findNearestPixel_refines h w cross s fuel hs habs hp
+  have hsnap := snap_argmin h w cross (s.ienv "py", s.ienv "px")
+  rw [findNearestF_eq hF] at hr
+  refine ⟨hr.1, hr.2.1, hr.2.2.1, hr.2.2.2, ?_, ?_, ?_⟩
+  · intro hc; rw [hr.2.1, hsnap.1 hc]; rfl
+  · intro c hc
+    have := hsnap.2.1 c hc
+    exact ⟨by rw [hr.2.1, hc]; rfl, this.1, this.2.1 hp, this.2.2⟩
+  · intro hn
+    exact ⟨by rw [hr.2.1, hn]; rfl, hsnap.2.2 hn⟩
+
+/-- **the generated `_reconstruct_path` writes exactly the chain**: when the goal has a back pointer and the model's
+    parent walk over the arrays `parent_ys / parent_xs` reaches the start within some fuel (what the search invariant
+    provides, `anomaly_is_sentinel` / `path_is_chain`), the program terminates (`while` fuel `≥` the length of the
+    chain), `path_img[c] = cost[c]` on the cells of the chain, every other cell of `path_img` keeps its value and no
+    other array is written -/
+theorem il_path_written (h w : Nat) (s : State F) (fuel : Nat) (hs : s.ctl = .run)
+    (hshp : RcShp h w "cost" s) (hlen : (s.fa "path_img").length = h * w) (start goal : Cell)
+    (ha : RcArgs (fun a => a) start goal s)
+    (hsome : parentOf (s.ia "parent_ys") (s.ia "parent_xs") w goal ≠ none)
+    (n : Nat) (chain : List Cell)
+    (hw : walk (parentOf (s.ia "parent_ys") (s.ia "parent_xs") w) start n goal = some chain)
+    (hin : ∀ c ∈ chain, inside h w c = true) (hfuel : chain.length ≤ fuel) :
+    let r := Gen.IL.reconstructPath.run s fuel
+    r.ctl = .ret ∧ r.ia = s.ia ∧ (∀ a, a ≠ "path_img" → r.fa a = s.fa a) ∧
+      (r.fa "path_img").length = h * w ∧
+      ∀ c, inside h w c = true → ∀ d, (r.fa "path_img").getD (cidx w c) d =
+        if c ∈ chain then (s.fa "cost").getD (cidx w c) Fl.nan else (s.fa "path_img").getD (cidx w c) d :=
+  reconstructPath_refines h w s fuel hs hshp hlen start goal ha hsome n chain hw hin hfuel
+
+/-- **the generated `_a_star_search` is the model's `search`** (any number type, in particular IEEE doubles), and
+    what it returns is a valid path: for well-formed inputs (`SrchIn e s`) and `while` fuel `≥ 2·h·w + 1`
+    * model `path chain g`: the program returns; `path_img[c] = g c` exactly on the cells of `chain`, the other cells
+      keep their value (NaN in `a_star_search`); `chain` is a `ValidPath` (from goal back to start through allowed
+      neighbours, each step adding its length, never entering a barrier);
+    * model `noPath`: the program returns with `path_img` untouched, and there is no route;
+    * model `anomaly`: only the sentinel of `_min_cost_pixel_id` (an open cell with cost `≥ (h+w)^2` or NaN; excluded
+      for exact costs by `astar_exact`); nothing is claimed about the program there. -/
+theorem il_search (e : Env F) (s : State F) (fuel : Nat) (hs : s.ctl = .run) (hi : SrchIn e s)
+    (hlen : (s.fa "path_img").length = e.h * e.w) (hfuel : 2 * (e.h * e.w) + 1 ≤ fuel) :
+    let r := Gen.IL.aStarSearch.run s fuel
+    match search e with
+    | .path chain g => ValidPath e chain g ∧ r.ctl = .ret ∧ (r.fa "path_img").length = e.h * e.w ∧
+        ∀ c, inside e.h e.w c = true → ∀ d, (r.fa "path_img").getD (cidx e.w c) d =
+          if c ∈ chain then g c else (s.fa "path_img").getD (cidx e.w c) d
+    | .noPath => (∀ l, ¬ Route e e.goal l) ∧ r.ctl = .ret ∧ r.fa "path_img" = s.fa "path_img"
+    | .anomaly _ => ∃ st, Inv e st ∧ anyOpen e st = true ∧ minCostOpen e st = none := by
+  intro r
+  have h := aStarSearch_refines e s fuel hs hi hlen hfuel
+  cases hsr : search e with
+  | path chain g =>
+    rw [hsr] at h
+    have hv := (path_is_chain e hi.start_in hsr).1
+    exact ⟨hv, h (fun c hc => (hv.free c hc).1)⟩
+  | noPath =>
+    rw [hsr] at h
+    exact ⟨all_nan_means_no_route e hi.start_in hsr, h⟩
+  | anomaly w => exact anomaly_is_sentinel e hi.start_in hsr
+
+/-! non-vacuity of the hypotheses of the `il_*` theorems: a 1 × 2 raster of crossable cells, start `(0,0)`, goal
+    `(0,1)`, one allowed offset `(0, +1)`, over any number type -/
+
+def ilDemo : State F :=
+  { (State.empty : State F) with
+    shp := setS (setS (setS (setS (setS (setS (setS (setS (setS (fun _ => []) "data" [1, 2]) "path_img" [1, 2])
+      "barriers" [0]) "neighbor_ys" [1]) "neighbor_xs" [1]) "cost" [1, 2]) "is_open" [1, 2]) "parent_ys" [1, 2])
+      "parent_xs" [1, 2]
+    fa := setS (setS (setS (fun _ => []) "data" [Fl.lit 1 1, Fl.lit 1 1]) "path_img" [Fl.nan, Fl.nan])
+      "cost" [Fl.lit 1 1, Fl.lit 0 1]
+    ia := setS (setS (setS (setS (setS (fun _ => []) "neighbor_ys" [0]) "neighbor_xs" [1]) "is_open" [1, 0])
+      "parent_ys" [0, 0]) "parent_xs" [0, 0]
+    ienv := setS (fun _ => 0) "goal_px" 1 }
+
+def ilDemoEnv : Env F :=
+  { ops := flOps, h := 1, w := 2, nbrs := [(0, 1)], start := (0, 0), goal := (0, 1)
+    cross := fun c => !notCross (((ilDemo : State F).fa "data").getD (cidx 2 c) Fl.nan)
+      ((ilDemo : State F).fa "barriers") }
+
+def ilDemoSt : AStar.St F :=
+  { isOpen := fun c => decide (((ilDemo : State F).ia "is_open").getD (cidx 2 c) 0 ≠ 0)
+    isClosed := fun _ => false, g := fun _ => Fl.nan, parent := fun _ => none
+    f := fun c => ((ilDemo : State F).fa "cost").getD (cidx 2 c) Fl.nan }
+
+example : (((ilDemo : State F).shp "barriers").length = 1) ∧ (ilDemo : State F).ctl = .run := ⟨rfl, rfl⟩
+
+example : McAbs (ilDemoEnv : Env F) ilDemoSt ilDemo :=
+  ⟨rfl, rfl, by simp [ilDemo, ilDemoEnv, setS_apply], by simp [ilDemo, ilDemoEnv, setS_apply], fun _ _ => rfl,
+   fun _ _ => rfl⟩
+
+example : FnAbs 1 2 (ilDemoEnv : Env F).cross (ilDemo : State F) ∧
+    inside 1 2 ((ilDemo : State F).ienv "py", (ilDemo : State F).ienv "px") = true :=
+  ⟨⟨by simp [ilDemo, setS_apply], by simp [ilDemo, setS_apply], fun _ _ => rfl⟩,
+   by simp [ilDemo, setS_apply, inside]⟩
+
+example : SqrtLt ER := sqrtLt_ER
+
+example : RcShp 1 2 "cost" (ilDemo : State F) ∧ RcArgs (fun a => a) (0, 0) (0, 1) (ilDemo : State F) ∧
+    parentOf ((ilDemo : State F).ia "parent_ys") ((ilDemo : State F).ia "parent_xs") 2 (0, 1) ≠ none ∧
+    walk (parentOf ((ilDemo : State F).ia "parent_ys") ((ilDemo : State F).ia "parent_xs") 2) (0, 0) 2 (0, 1)
+      = some [(0, 1), (0, 0)] := by
+  refine ⟨?_, ?_, ?_, ?_⟩
+  · constructor <;> simp [ilDemo, setS_apply]
+  · constructor <;> simp [ilDemo, setS_apply]
+  all_goals simp [ilDemo, setS_apply, parentOf, cidx, walk]
+
+example : SrchIn (ilDemoEnv : Env F) ilDemo ∧ ((ilDemo : State F).fa "path_img").length = 1 * 2 := by
+  refine ⟨⟨rfl, ?_, ?_, ?_, ?_, ?_, ?_, fun _ _ => rfl, ?_, ?_, ?_, ?_, ?_⟩, ?_⟩
+  all_goals simp [ilDemo, ilDemoEnv, setS_apply, inside]
+
+end il
 
 /-- non-vacuity: over the reals `np.sqrt` is `Real.sqrt` (the other functions do not occur in the
     generated A* kernels), and `SqrtOk` holds -/
